@@ -326,6 +326,12 @@ pub const GC_CORPUS: &[(&str, &str)] = &[
     ("global-ref-func-only", r#"(module (func $only_here) (global $g funcref (ref.func $only_here)) (func (export "f") (drop (global.get $g))))"#),
     ("table-copy-src-only", r#"(module (table $dst 1 funcref) (table $src 1 funcref) (func $in_src) (elem (table $src) (i32.const 0) func $in_src)
         (func (export "f") (table.copy $dst $src (i32.const 0) (i32.const 0) (i32.const 1))))"#),
+    // sequences the parser created inside unreachable code and never linked into the body: what only they name is not reachable
+    ("detached-block-after-br", r#"(module (func $only_dead (result i32) i32.const 1) (global $gd (mut i32) (i32.const 0)) (memory $m 1) (data $dd "x")
+        (func (export "f") (block (br 0) (block (drop (call $only_dead)) (global.set $gd (i32.const 1)) (data.drop $dd)))))"#),
+    ("detached-if-after-return", r#"(module (type $only (func (param f64))) (table $t 1 funcref) (func $g) (elem $e func $g)
+        (func (export "f") (return) (if (i32.const 1) (then (call_indirect $t (type $only) (f64.const 0) (i32.const 0))) (else (elem.drop $e)))))"#),
+    ("detached-loop-after-unreachable", r#"(module (func $only_dead2) (func (export "f") (result i32) (unreachable) (loop (call $only_dead2) (br 0)) (i32.const 0)))"#),
     ("declared-only-ref-func", r#"(module (func $d) (elem declare func $d) (func (export "f") (result funcref) (ref.func $d)))"#),
     ("memory-copy-src-only", r#"(module (memory $a 1) (memory $b 1) (data (memory $b) (i32.const 0) "q") (func (export "f") (memory.copy $a $b (i32.const 0) (i32.const 0) (i32.const 1))))"#),
     ("call-indirect-only-table-and-type", r#"(module (type $s (func (param i64))) (table $t 1 funcref) (func $callee (type $s)) (elem (table $t) (i32.const 0) func $callee)
